@@ -43,7 +43,7 @@ theorem Keep.lastNow {s s' : State F} (h : Keep s s') : lastNow s' = lastNow s :
 queue, rate controller and sync-timer parts. -/
 theorem HcInv.emitStep {s s' : State F} (h : HcInv s) (hk : Keep s s') (hfq : WInv s'.fq)
     (hfqt : FqTime s'.fq s.nowMs) (hrate : RateInv s'.rate s.nowMs)
-    (hrmax : s'.rate.maxSendRate < 2^31) (hsync : s'.syncTimeoutBase ≤ s.nowMs) : HcInv s' where
+    (hsync : s'.syncTimeoutBase ≤ s.nowMs) : HcInv s' where
   ps := by rw [hk.ps]; exact h.ps
   pok := by rw [hk.ps]; exact h.pok
   uid := by rw [hk.ps]; exact h.uid
@@ -53,7 +53,6 @@ theorem HcInv.emitStep {s s' : State F} (h : HcInv s) (hk : Keep s s') (hfq : WI
   fqt := by rw [hk.nowMs]; exact hfqt
   pr := by rw [hk.pr]; exact h.pr
   rate := by rw [hk.nowMs]; exact hrate
-  rmax := hrmax
   sync := by rw [hk.nowMs]; exact hsync
   clock := by rw [hk.nowMs, hk.lastNow, hk.timeBase]; exact h.clock
 
@@ -110,15 +109,13 @@ theorem dfeFinalize_einv (e : Emit F) (h : EInv e) :
     have hk := keep_update e.s fq rate
       (e.s.flushAlloc - (encode (.data ip.frameId ip.nonce ip.dgs)).length) e.s.nowMs
     refine ⟨⟨?_, fun ip' h' => by cases h'⟩, hk, rfl, ?_⟩
-    · refine h.hc.emitStep hk ?_ ?_ ?_ ?_ (Nat.le_refl _)
+    · refine h.hc.emitStep hk ?_ ?_ ?_ (Nat.le_refl _)
       · show WInv fq
         rw [hfq]; exact FrameQ.WInv_push _ _ _ _ _ h.hc.fq
       · show FqTime fq e.s.nowMs
         rw [hfq]; exact FrameQ.FqTime_push _ _ _ _ _ _ h.hc.fqt (Nat.le_refl _)
       · show RateInv rate e.s.nowMs
         rw [hrate]; exact Rate.RateInv_sent h.hc.rate
-      · show rate.maxSendRate < 2^31
-        rw [hrate, (Rate.notifyFrameSent_sendRate _ _).2]; exact h.hc.rmax
     · show e.s.flushAlloc - ((encode (.data ip.frameId ip.nonce ip.dgs)).length : Int) = cred e
       rw [ipOk_frame_length ip hok, cred_some e ip hip]
 
@@ -159,7 +156,7 @@ theorem dfePush_eq (e : Emit F) (p : PSend.Pending) (fid : Nat) (resend : Bool) 
 theorem rateLimited_einv (e : Emit F) (h : EInv e) (hn : e.inProg = none) :
     EInv ({ e with s := { e.s with fq := { e.s.fq with rateLimited := true } } } : Emit F) := by
   refine ⟨?_, fun ip h' => by rw [hn] at h'; cases h'⟩
-  refine h.hc.emitStep ⟨rfl, rfl, rfl, rfl, rfl, rfl, rfl, rfl, rfl⟩ ?_ ?_ h.hc.rate h.hc.rmax h.hc.sync
+  refine h.hc.emitStep ⟨rfl, rfl, rfl, rfl, rfl, rfl, rfl, rfl, rfl⟩ ?_ ?_ h.hc.rate h.hc.sync
   · exact FrameQ.WInv_congr h.hc.fq rfl rfl rfl rfl rfl rfl rfl
   · exact FrameQ.FqTime_congr h.hc.fqt rfl rfl rfl
 
@@ -187,7 +184,7 @@ theorem startNewG_ok (dg : Datagram) (p : PSend.Pending) (fid : Nat) (resend : B
       simp only []
       refine ⟨_, _, rfl, ⟨?_, ?_⟩, ⟨rfl, rfl, rfl, rfl, rfl, rfl, rfl, rfl, rfl⟩, fun _ => ?_⟩
       · exact h.hc.emitStep ⟨rfl, rfl, rfl, rfl, rfl, rfl, rfl, rfl, rfl⟩ h.hc.fq h.hc.fqt h.hc.rate
-          h.hc.rmax h.hc.sync
+          h.hc.sync
       · intro ip' h'
         simp only [Option.some.injEq] at h'
         subst h'
